@@ -8,7 +8,8 @@ import Mathlib.Tactic.Linarith
 atoms of a concrete input is the MODEL's `getAreaIdx` on the grid of the MODEL's `generateAreaPoints`.
 
 (2) `rows_skel_eq_model`: for every tabulated frame shape and every assignment of its atoms, the row skeleton is the number
-computed from the MODEL's `Analyzer.add` run on index objects (exhaustive kernel evaluation).
+computed from the MODEL's `Analyzer.add` run on index objects (exhaustive kernel evaluation).  `rows_noF11`: where no FP result
+carries a ground truth the skeleton's number has no cell of F11's signature, so the per-run relation `rowsRel` is equality there.
 -/
 namespace PEval.AnalyzerDT
 open PEval PEval.DT PEval.Analyzer
@@ -112,5 +113,23 @@ theorem model_on_y_line (n : Nat) (hn : n = 1 ∨ n = 3 ∨ n = 9) (mX mY x : Ra
     (simp [areaResOfModel, generateAreaPoints, getAreaIdx, areaHits, insideArea, List.zipIdx, List.filter_cons] <;> grind)
 
 theorem rows_skel_eq_model : ∀ key ∈ rowKeys, rowsSkelOk key = true := by decide +kernel
+
+/-- for a shape: on every assignment of the four atoms under which no FP result carries a ground truth, the skeleton's number shows no
+FP pair holding a ground truth (so `relCode` against it is equality, `relCode_eq_of_noF11`) -/
+def rowsNoF11Ok (key : Nat) : Bool :=
+  allBits.all fun b => !(noFPwithGT key (valOfBits b)) ||
+    (match rowsAtoms key (valOfBits b) with | .other m => noF11Code 4 m | _ => false)
+
+theorem rows_noF11 : ∀ key ∈ rowKeys, rowsNoF11Ok key = true := by decide +kernel
+
+/-- the restriction is not vacuous, and it is a restriction: a TP and a GT-less FP satisfy it, a TP and an FP carrying a ground truth
+do not; the relation accepts exactly the two layouts there (FP pair with / without its ground truth) and not, e.g., a TN row written
+as FN or a dropped pair -/
+example : noFPwithGT 4 (valOfBits (false, false, true, false)) = true ∧ noFPwithGT 4 (valOfBits (false, false, false, false)) = false ∧
+    noFPwithGT 9 (valOfBits (false, false, false, false)) = true := by decide
+example : relCode 4 (7 + 38 * 64) (7 + 38 * 64) = true ∧ relCode 4 (7 + 36 * 64) (7 + 38 * 64) = true ∧
+    relCode 4 (7 + 37 * 64) (7 + 38 * 64) = false ∧ relCode 4 (5 + 38 * 64) (7 + 38 * 64) = false ∧
+    relCode 4 7 (7 + 38 * 64) = false ∧ relCode 4 (rowDigit 4 0 0 + 1) (rowDigit 3 0 0 + 1) = false ∧
+    relCode 4 (7 + 38 * 64) (7 + 36 * 64) = false := by decide
 
 end PEval.AnalyzerDT
